@@ -6,7 +6,7 @@
 set -u
 PID=$1; N=$2; shift 2
 CHECKS=${*:-$PID}
-WT=/tmp/mut/$PID; W=/tmp/mut/$PID.work
+R=${MUT_ROOT:-/tmp/mut}; WT=$R/$PID; W=$R/$PID.work
 export GOPROXY=off GOFLAGS=-mod=mod
 unset GOTOOLCHAIN GOSUMDB
 cd $WT || exit 2
